@@ -2,6 +2,9 @@
 """replaytest.py <patch.diff> <PROP>: with the patch applied run the check, replay up to 3 of its artefacts (expect rc 1),
 revert, replay them again on the unchanged tree (expect rc 0)."""
 import glob, shutil, subprocess, sys, os
+
+import os as _os
+_os.environ.setdefault('VERIF_EVIDENCE_DIR', '/tmp/verif_evidence_scratch')      # these tools run checks against a CHANGED tree: /verif/evidence is not theirs to write
 patch, prop = os.path.abspath(sys.argv[1]), sys.argv[2]
 def sh(c): return subprocess.run(c, shell=True, capture_output=True, text=True)
 if sh('git -C /repo status --porcelain --untracked-files=no').stdout.strip():
